@@ -377,6 +377,95 @@ def format_specifier(R, ctx):
                  "every arm for %s wraps the value in tostring(..)" % var if ok else "; ".join(why) + ": string.format('%s', true/nil/{}) raises in Lua 5.1 and Luau")
 
 
+def sticky_capture_flags(R, ctx):
+    """`define_*` flags of the lowering processors: once a generated call uses the captured name the flag stays set."""
+    import itertools
+    from .. import peval
+    from ..peval import Enum, Struct, UNKNOWN, make
+    rid = "C06.capture"
+    lib = ctx.lib
+    R.rule(rid, "the lowering processors that may emit `local __DARKLUA_X = <library function>` at the top of the file "
+                "(remove_floor_division, remove_interpolated_string), evaluated through NodeProcessor::process_expression on `a // b` / "
+                "`` `{a}{b}` `` for every combination of {flags already set} x {library name shadowed or not}: a flag that is set stays set "
+                "(the capture statement requested by an earlier occurrence is still emitted), and whenever the library name is shadowed "
+                "some flag is set afterwards (the generated call uses the captured name, which must then be defined)")
+    N = "nodes::expressions::"
+    BE, BINOP = N + "binary::BinaryExpression", N + "binary::BinaryOperator"
+    IS, SEG, VS = N + "interpolated_string::InterpolatedStringExpression", N + "interpolated_string::InterpolationSegment", N + "interpolated_string::ValueSegment"
+
+    def leaf(t):
+        return Enum(EXPR, "Identifier", {"0": make(lib, "nodes::identifier::Identifier", {"name": t})})
+
+    def floor_div():
+        return Enum(EXPR, "Binary", {"0": make(lib, BE, {"operator": Enum(BINOP, "DoubleSlash"), "left": leaf("a"), "right": leaf("b")})})
+
+    def interpolated():
+        segs = [Enum(SEG, "Value", {"0": make(lib, VS, {"value": leaf("a")})}), Enum(SEG, "Value", {"0": make(lib, VS, {"value": leaf("b")})})]
+        return Enum(EXPR, "InterpolatedString", {"0": make(lib, IS, {"segments": segs})})
+    targets = [("rules::remove_floor_division::RemoveFloorDivisionProcessor", floor_div, {"math"}),
+               ("rules::remove_interpolated_string::RemoveInterpolatedStringProcessor", interpolated, {"string", "tostring"})]
+    for PROC, build, libs in targets:
+        fn = lib.fn("<%s as process::node_processor::NodeProcessor>::process_expression" % PROC)
+        a_ = lib.adts.get(PROC)
+        flags = [f["name"] for v in (a_["variants"] if a_ else []) for f in v["fields"] if f.get("tys") == "bool"]
+        short = PROC.split("::")[-2]
+        if not R.require(rid, "%s|anchor" % short, fn is not None and len(flags) >= 1, ctx.adt_where(PROC) if a_ else "", "process_expression and the bool flags %s of %s" % (flags, PROC)):
+            continue
+        bad, n = [], 0
+        enum_fields = [(f["name"], [v["name"] for v in lib.adts[f["tys"]]["variants"]]) for f in a_["variants"][0]["fields"]
+                       if f.get("tys") in lib.adts and lib.adts[f["tys"]].get("kind") == "enum" and all(not v["fields"] for v in lib.adts[f["tys"]]["variants"])]
+        enum_tys = {f["name"]: f["tys"] for f in a_["variants"][0]["fields"]}
+        modes = list(itertools.product(*[vs for _, vs in enum_fields])) or [()]
+        for preset in itertools.product((False, True), repeat=len(flags)):
+          for mode in modes:
+            for shadowed in itertools.chain.from_iterable(itertools.combinations(sorted(libs), k) for k in range(len(libs) + 1)):
+                over = dict(zip(flags, preset))
+                for (fname_, _), variant in zip(enum_fields, mode):
+                    over[fname_] = Enum(enum_tys[fname_], variant)
+                captured = []
+                for f in a_["variants"][0]["fields"]:
+                    if f.get("tys") == "alloc::string::String":
+                        over[f["name"]] = "__CAPTURED_" + f["name"]
+                        captured.append(over[f["name"]])
+                proc = make(lib, PROC, over)
+
+                def hook(pe, path, fname, args, node, shadowed=shadowed):
+                    if fname == "is_identifier_used" and len(args) == 2 and isinstance(args[1], str):
+                        return args[1] in shadowed
+                    return NotImplemented
+                pe = peval.PEval(lib, ctx.an, hook)
+                e = build()
+                try:
+                    pe.call_fn(fn, [proc, e])
+                except peval.OutOfFuel:
+                    pass
+                n += 1
+                after = {f: proc.fields.get(f) for f in flags}
+                lost = [f for f, was in zip(flags, preset) if was and after[f] is not True]
+                if lost:
+                    bad.append("flags %s set, library names shadowed: %s -> flag %s is %s afterwards: the capture statement an earlier occurrence needs is not emitted" % (dict(zip(flags, preset)), sorted(shadowed), lost[0], after[lost[0]]))
+                else:
+                    found = set()
+
+                    def strings(x):
+                        if isinstance(x, str):
+                            if x in captured:
+                                found.add(x)
+                        elif isinstance(x, (Struct, Enum)):
+                            for y in x.fields.values():
+                                strings(y)
+                        elif isinstance(x, (list, tuple)):
+                            for y in x:
+                                strings(y)
+                    strings(e)
+                    nset = sum(1 for v in after.values() if v is True)
+                    if pe.unknown_reasons:
+                        bad.append("mode %s, shadowed %s: outcome not established %s" % (mode, sorted(shadowed), pe.unknown_reasons[:1]))
+                    elif nset < len(found):
+                        bad.append("mode %s, library names shadowed: %s -> the lowered expression uses the captured name(s) %s but only %d flag(s) are set: the name is never defined" % (mode, sorted(shadowed), sorted(found), nset))
+        R.ob(rid, "%s|flags-sticky-and-set-when-shadowed" % short, not bad, ctx.where(fn), "all %d states" % n if not bad else bad[0])
+
+
 def run(R, ctx):
     R.explanation = (
         "Structural necessary conditions of the lowering rules on typed THIR: subset relation between the duplicated-without-temporary "
@@ -393,3 +482,4 @@ def run(R, ctx):
     fresh(R, ctx)
     repeat_scope(R, ctx)
     format_specifier(R, ctx)
+    sticky_capture_flags(R, ctx)
